@@ -214,7 +214,7 @@ void harness (void)
     }
   else
     {
-      XV_ASSERT ("C01,C06", bf_calls >= 1 && bf_key[0] == (const char *) key && bf_set[0] == (const char *) s && bf_min[0] == 16
+      XV_ASSERT ("C01,C11", bf_calls >= 1 && bf_key[0] == (const char *) key && bf_set[0] == (const char *) s && bf_min[0] == 16
                  && bf_out[0] == ((struct BF_buffer *) scratch)->re_output && bf_data[0] == &((struct BF_buffer *) scratch)->data,
                  "the caller's phrase and setting are hashed into the scratch area with minimum cost 2^4");
       if (!bf_ok[0])
@@ -239,5 +239,50 @@ void harness (void)
             }
         }
     }
+}
+#endif
+
+#ifdef B_reject
+/* The rejecting side of BF_crypt, without any abstraction: for every setting
+   outside the documented shape (and every cost below the minimum) the
+   function returns false with EINVAL, reads nothing beyond the string's NUL,
+   writes nothing to the output, and never reaches the Eksblowfish loops
+   (their unwinding assertions, at bound 1, are obligations of this job).  */
+void harness (void)
+{
+  XV_IN (size_t, n, nondet_size);
+  XV_ASSUME (n <= 64);
+  unsigned char *s = malloc (n + 1);
+  unsigned char *key = malloc (1);
+  unsigned char *out = malloc (BF_HASH_LENGTH);
+  struct BF_data *data = malloc (sizeof (struct BF_data));
+  XV_ASSUME (s != NULL && key != NULL && out != NULL && data != NULL);
+  bool nz = true;
+  for (size_t i = 0; i < 64; i++)   /* XV_UNWIND 64 */
+    if (i < n && s[i] == 0) nz = false;
+  XV_ASSUME (nz);
+  s[n] = 0; key[0] = 0;
+  XV_IN (unsigned, min, nondet_uint);
+  XV_ASSUME (min == 1 || min == 16);
+  XV_IN (size_t, k, nondet_size);
+  XV_ASSUME (k < BF_HASH_LENGTH);
+  unsigned char old = out[k];
+  errno = 0;
+  bool hdr = n >= 7 && s[0] == '$' && s[1] == '2' && (s[2] == 'a' || s[2] == 'b' || s[2] == 'x' || s[2] == 'y')
+             && s[3] == '$' && s[4] >= '0' && s[4] <= '9' && s[5] >= '0' && s[5] <= '9' && s[6] == '$';
+  unsigned cost = hdr ? (unsigned) (s[4] - '0') * 10 + (unsigned) (s[5] - '0') : 0;
+  bool salt_ok = n >= 29;
+  for (size_t i = 7; i < 29; i++)   /* XV_UNWIND 30 */
+    if (i < n && !in_bf64 (s[i])) salt_ok = false;
+  bool spec_ok = hdr && cost <= 31 && (cost >= 4 || min == 1) && salt_ok;
+  XV_ASSUME (!spec_ok);
+  bool ok = BF_crypt ((const char *) key, (const char *) s, out, data, min);
+  XV_ASSERT ("C05,C11", !ok, "a setting outside $2[abxy]$NN$<22 alphabet characters> (NN 04..31; 00..31 for the self-test) is rejected");
+  XV_ASSERT ("C05", errno == EINVAL, "rejected settings set EINVAL");
+  XV_ASSERT ("C05,C04", out[k] == old, "rejected settings leave the output untouched (arbitrary byte)");
+  XV_CANARY ("rejected");
+  if (hdr && cost > 31) XV_CANARY ("cost above 31");
+  if (hdr && cost < 4 && min == 16) XV_CANARY ("cost below 4");
+  if (hdr && n < 29) XV_CANARY ("short salt");
 }
 #endif
